@@ -38,13 +38,47 @@ def cases(draw, bounded=None, kinds=("gauss", "gauss", "quartic", "logreg", "ban
     cfg["n_steps"] = draw(st.integers(1, 60))
     cfg["t_u"] = [draw(st.floats(-1, 1)) for _ in range(cfg["d"])]
     cfg["r_u"] = [draw(st.floats(-2.5, 2.5)) for _ in range(cfg["d"])]
+    # the mass in effect can also be one the chain estimated from its own samples (and the chain may have been re-loaded since)
+    if draw(st.integers(0, 3)) == 0:
+        cfg["mass_history"] = {"advance": draw(st.integers(12, 40)), "diagonal": cfg["d"] == 1 or draw(st.booleans()), "reload": draw(st.booleans())}
     return cfg
+
+
+def apply_mass_history(cfg, ch, tgt, s):
+    """advance, estimate_mass (public API), optionally save / load; keeps the step in the configured stability range"""
+    import os
+    import tempfile
+    from inference.mcmc import HamiltonianChain
+
+    h = cfg["mass_history"]
+    rngctl.reset(cfg["seed"])
+    with warnings.catch_warnings(), np.errstate(all="ignore"):
+        warnings.simplefilter("ignore")
+        ch.advance(h["advance"])
+        samples = np.array(ch.theta[1:], dtype=float)
+        est = np.var(samples, axis=0) if h["diagonal"] else np.atleast_2d(np.cov(samples.T))
+        ev = est if h["diagonal"] else np.linalg.eigvalsh(est)
+        if not np.all(np.isfinite(ev)) or ev.min() <= 1e-8 * max(ev.max(), 1e-300):
+            raise Inconclusive("degenerate mass estimate (too few accepted moves)")
+        ch.estimate_mass(diagonal=h["diagonal"])
+        if h["reload"]:
+            fd, path = tempfile.mkstemp(suffix=".npz")
+            os.close(fd)
+            try:
+                ch.save(path)
+                ch = HamiltonianChain.load(path, posterior=tgt, grad=ch.grad if cfg["hmc"]["grad"] else None)
+            finally:
+                os.remove(path)
+    ch.ES.epsilon = float(np.min(s)) * 10 ** cfg["hmc"]["eps_log"] / float(np.sqrt(ev.max()))
+    return ch
 
 
 def setup(cfg):
     ch, tgt, info = S.build(cfg, record=False)
     d = cfg["d"]
     c, s = S.centre_scale(cfg)
+    if cfg.get("mass_history"):
+        ch = apply_mass_history(cfg, ch, tgt, s)
     box = info["box"]
     if box is not None:
         # strictly inside: a point exactly ON the upper wall is treated by the fold as folded once (measure-zero case,
@@ -92,6 +126,7 @@ def cls_tag(ch, reflecting):
 
 def body_reversible(case, ctx):
     ch, tgt, info, t0, r0, s = setup(case)
+    ctx.event("mass=estimated-by-chain" + ("+reloaded" if case["mass_history"]["reload"] else "") if case.get("mass_history") else "mass=as-constructed")
     n = case["n_steps"]
     reflecting = leaves_box(case, ch, t0, r0, n)
     t1, r1 = flow(ch, t0, r0, n)
@@ -121,6 +156,7 @@ def body_reversible(case, ctx):
 
 def body_volume(case, ctx):
     ch, tgt, info, t0, r0, s = setup(case)
+    ctx.event("mass=estimated-by-chain" + ("+reloaded" if case["mass_history"]["reload"] else "") if case.get("mass_history") else "mass=as-constructed")
     n = min(case["n_steps"], 25)
     d = case["d"]
     reflecting = leaves_box(case, ch, t0, r0, n)
@@ -176,6 +212,7 @@ def envelope(ch, t0, r0, eps, n):
 
 def body_energy(case, ctx):
     ch, tgt, info, t0, r0, s = setup(case)
+    ctx.event("mass=estimated-by-chain" + ("+reloaded" if case["mass_history"]["reload"] else "") if case.get("mass_history") else "mass=as-constructed")
     n = max(case["n_steps"], 8)
     eps = ch.ES.epsilon
     reflecting = leaves_box(case, ch, t0, r0, n)
@@ -215,6 +252,7 @@ def body_energy(case, ctx):
 
 def body_kinetic(case, ctx):
     ch, tgt, info, t0, r0, s = setup(case)
+    ctx.event("mass=estimated-by-chain" + ("+reloaded" if case["mass_history"]["reload"] else "") if case.get("mass_history") else "mass=as-constructed")
     d = case["d"]
     T = case["T"]
     # the Hamiltonian is kinetic energy minus the tempered log-density
@@ -257,6 +295,7 @@ def reference_leapfrog(tgt, t, r, n, eps, T, inv_mass, box):
 
 def body_reference(case, ctx):
     ch, tgt, info, t0, r0, s = setup(case)
+    ctx.event("mass=estimated-by-chain" + ("+reloaded" if case["mass_history"]["reload"] else "") if case.get("mass_history") else "mass=as-constructed")
     if ch.bounds is not None and mass_kind(ch) == "matrix":
         raise Inconclusive("specular reference undefined for a full mass matrix with walls")
     n = min(case["n_steps"], 30)
@@ -289,6 +328,7 @@ def fd_cases(draw):
 
 def body_finite_diff(case, ctx):
     ch, tgt, info, t0, r0, s = setup(case)
+    ctx.event("mass=estimated-by-chain" + ("+reloaded" if case["mass_history"]["reload"] else "") if case.get("mass_history") else "mass=as-constructed")
     t = t0.copy()
     box = info["box"]
     for i, m in enumerate(case["zero_mode"]):
